@@ -2147,7 +2147,9 @@ class TypeEnv:
             return self._call_type(e)
         if isinstance(e, (ast.List, ast.ListComp)):
             if isinstance(e, ast.List):
-                return t_list(union(self.type_of(x) for x in e.elts) if e.elts else ANY)
+                # `[*xs, y]`: the elements of xs, not xs itself
+                return t_list(union((self.elem_type(self.type_of(x.value)) if isinstance(x, ast.Starred) else self.type_of(x))
+                                    for x in e.elts) if e.elts else ANY)
             return t_list(self.type_of(e.elt))
         if isinstance(e, (ast.Set, ast.SetComp)):
             if isinstance(e, ast.Set):
